@@ -238,7 +238,8 @@ func decodeScalar(data []byte, oid int) interface{} {
 
 	// UUID
 	case OidUUID:
-		return fmt.Sprintf("%08x-%04x-%04x-%04x-%x", u32(data, 0), u16(data, 4), u16(data, 6), u16(data, 8), data[10:16])
+		// stored as 16 bytes in display order (no little-endian fields)
+		return fmt.Sprintf("%x-%x-%x-%x-%x", data[0:4], data[4:6], data[6:8], data[8:10], data[10:16])
 
 	// pg_lsn
 	case OidPgLsn:
